@@ -27,7 +27,7 @@ func init() {
 var dqProtoPtr = gws.VerifNewDeque(1).PushBack(0).Addr()
 
 func dqConv[P ~uint32](proto P, u uint32) P { return P(u) }
-func dqSliceOf[T any](x T) []T           { return []T{x} }
+func dqSliceOf[T any](x T) []T              { return []T{x} }
 
 // dqRange calls a deque's Range method with a callback that sees value and address of each element.
 func dqRange[P ~uint32, E interface {
